@@ -64,6 +64,9 @@ pub struct NetCfg {
     pub send_err_pm: u32,
     #[serde(default)]
     pub send_pending_pm: u32,
+    /// plane B is down for the whole run: its senders report would-block and never wake the caller
+    #[serde(default)]
+    pub stuck_b: bool,
 }
 
 #[derive(Debug, Default)]
@@ -335,7 +338,9 @@ impl CustomSender for SimSender {
         // injected sender faults (transient): I/O error or would-block
         let fault = {
             let mut g = self.net.0.lock().unwrap();
-            let f = if g.faults_enabled && g.cfg.send_err_pm > 0 && g.rng.below(1000) < g.cfg.send_err_pm as u64 {
+            let f = if g.cfg.stuck_b && self.tid == SIM_TRANSPORT_ID_B {
+                "stuck"
+            } else if g.faults_enabled && g.cfg.send_err_pm > 0 && g.rng.below(1000) < g.cfg.send_err_pm as u64 {
                 "io-error"
             } else if g.faults_enabled && g.cfg.send_pending_pm > 0 && g.rng.below(1000) < g.cfg.send_pending_pm as u64 {
                 "would-block"
@@ -351,6 +356,7 @@ impl CustomSender for SimSender {
                 cx.waker().wake_by_ref();
                 return Poll::Pending;
             }
+            "stuck" => return Poll::Pending,
             _ => {}
         }
         let seg = transmit.segment_size.unwrap_or(transmit.contents.len()).max(1);
